@@ -8,6 +8,8 @@ MANIFEST_ENTRY = {
     "note": "Availability of the whole read additionally depends on ShareFinder (which servers are asked, when it declares 'no more shares') and on each Share's own state machine and timers, which are reactor-driven and not explored; with those the property quantifies over unbounded event orders and is outside function contracts. Nothing here is counted as proved.",
     "technique": "bounded exhaustive exploration of event schedules of the real class against a run-time contract (stand-in for deductive verification, labelled bounded); decode site by contract (C36)",
 }
+MANIFEST_ENTRY["text"] += " Bounded end-to-end stand-in (run-time contract, never counted as proved): contracts/immutable_grid.py encodes seeded files with the real Encoder, serves the shares from in-memory servers with per-share faults (missing, bit-flipped, truncated, header-truncated, another file's, another encoding's, dead or dying server, slow server) and checks every ImmutableFileNode.read (whole, ranged, concurrent, paused, next to a cancelled one, after failed reads) against the plaintext."
+MANIFEST_ENTRY["technique"] += "; plus bounded end-to-end run-time scenario contracts on an in-process grid of the real components (stand-in, labelled bounded)"
 EXPLANATION = "Every schedule of a small fetch session ends with the right report."
 TRUSTED = C46.TRUSTED
 ASSUMPTIONS = C46.ASSUMPTIONS
